@@ -375,6 +375,9 @@ def run(prop, tier, seed, timeout_s, args, t_start):
 
     # --- triage refuted obligations ----------------------------------------
     os.makedirs(os.path.join(HERE, "replays"), exist_ok=True)
+    for fn in os.listdir(os.path.join(HERE, "replays")):
+        if fn.startswith(prop + "_") and not args.only:
+            os.unlink(os.path.join(HERE, "replays", fn))
     viol_lines = []
     known_lines = []
     for rec in report["obligations"]:
